@@ -1,64 +1,617 @@
 package interp
 
-// Goroutines and channels. Without the scheduler (ex.threads == nil) a `go`
-// statement is unsupported and channels behave as host channels.
+// Goroutines, channels, select and a deterministic baton scheduler.
+//
+// Interpreter threads are host goroutines of which exactly one runs at a time
+// (the baton is passed through per-thread channels). The choice of the next
+// thread at a scheduling point is an exploration decision (kind 'c'), so every
+// schedule within the pre-emption bound is explored by re-execution like any
+// other case split. A vector-clock happens-before detector flags conflicting
+// unordered accesses to heap cells made by functions of the watched packages.
+//
+// The scheduler is switched on by the harness (vrt.Threads); without it a `go`
+// statement is unsupported and channel operations must not block.
 
 import (
+	"fmt"
+	"go/token"
 	"go/types"
+	"strings"
 
 	"golang.org/x/tools/go/ssa"
 )
 
-type thread struct {
-	id int
+type vclock map[int]int
+
+func (v vclock) copy() vclock {
+	n := make(vclock, len(v))
+	for k, x := range v {
+		n[k] = x
+	}
+	return n
 }
 
-type sched struct{}
+func (v vclock) join(o vclock) {
+	for k, x := range o {
+		if x > v[k] {
+			v[k] = x
+		}
+	}
+}
 
-func newSched() *sched { return &sched{} }
+// leq: every component of v is <= o (v happened before or equals o)
+func (v vclock) leq(o vclock) bool {
+	for k, x := range v {
+		if x > o[k] {
+			return false
+		}
+	}
+	return true
+}
 
-func (s *sched) access(fr *frame, p *value, write bool) {}
+type thread struct {
+	id      int
+	resume  chan struct{}
+	exited  chan struct{}
+	done    bool
+	blocked func() bool // nil: runnable; else true when the thread may proceed
+	vc      vclock
+	what    string
+}
+
+type cellInfo struct {
+	wTid  int
+	wClk  vclock
+	wAt   string
+	reads map[int]vclock
+	rAt   map[int]string
+}
+
+type sched struct {
+	threads  []*thread
+	cur      *thread
+	preempt  int
+	maxPre   int
+	aborting bool
+	failure  interface{}
+	watch    []string
+	cells    map[*value]*cellInfo
+	points   int
+	switches int
+}
+
+func newSched() *sched { return nil }
+
+func startSched(maxPre int, watch []string) *sched {
+	s := &sched{maxPre: maxPre, watch: watch, cells: map[*value]*cellInfo{}}
+	main := &thread{id: 0, resume: make(chan struct{}, 1), exited: make(chan struct{}), vc: vclock{0: 1}, what: "main"}
+	s.threads = []*thread{main}
+	s.cur = main
+	return s
+}
+
+func (s *sched) watched(fn *ssa.Function) bool {
+	if fn == nil || fn.Pkg == nil {
+		if fn != nil && fn.Parent() != nil {
+			return s.watched(fn.Parent())
+		}
+		return false
+	}
+	p := fn.Pkg.Pkg.Path()
+	for _, w := range s.watch {
+		if strings.HasSuffix(p, w) {
+			return true
+		}
+	}
+	return false
+}
+
+func (s *sched) runnable() []*thread {
+	var rs []*thread
+	for _, t := range s.threads {
+		if t.done {
+			continue
+		}
+		if t.blocked == nil || t.blocked() {
+			rs = append(rs, t)
+		}
+	}
+	return rs
+}
+
+// choose is an exploration decision among n alternatives (no solver involved).
+func (e *Explorer) choose(n int) int {
+	if n <= 1 {
+		return 0
+	}
+	e.stats.Splits++
+	if e.pos < len(e.prefix) {
+		d := e.prefix[e.pos]
+		e.pos++
+		if d.Kind != 'c' {
+			panic(fmt.Sprintf("engine: non-deterministic replay (expected %c, got schedule) at decision %d", d.Kind, e.pos-1))
+		}
+		e.path = append(e.path, d)
+		return int(d.Choice)
+	}
+	for c := n - 1; c >= 1; c-- {
+		e.work = append(e.work, WorkItem{Prefix: clonePath(e.path, Decision{'c', int64(c)}), Model: e.model.vals})
+	}
+	e.path = append(e.path, Decision{'c', 0})
+	return 0
+}
+
+// switchTo hands the baton to t and waits until it comes back.
+func (s *sched) switchTo(t *thread) {
+	me := s.cur
+	if t == me {
+		return
+	}
+	s.switches++
+	s.cur = t
+	// (nothing of the shared state may be read between handing the baton over
+	// and getting it back: the other thread runs from here on)
+	t.resume <- struct{}{}
+	<-me.resume
+	if s.aborting && me.id != 0 {
+		panic(engineAbort{"thread torn down at the end of the path"})
+	}
+	if me.id == 0 && s.failure != nil {
+		f := s.failure
+		s.failure = nil
+		panic(f)
+	}
+}
+
+// point is a scheduling point of the running thread: it may be pre-empted.
+func (s *sched) point(fr *frame) {
+	if s.aborting {
+		return // deferred calls of a thread that is being torn down
+	}
+	s.points++
+	if s.preempt >= s.maxPre {
+		return
+	}
+	rs := s.runnable()
+	if len(rs) <= 1 {
+		return
+	}
+	// alternatives: continue (0), or one of the other runnable threads
+	var others []*thread
+	for _, t := range rs {
+		if t != s.cur {
+			others = append(others, t)
+		}
+	}
+	c := ex.choose(1 + len(others))
+	if c == 0 {
+		return
+	}
+	s.preempt++
+	s.switchTo(others[c-1])
+}
+
+func (s *sched) yield(fr *frame) { s.point(fr) }
+
+// block suspends the running thread until cond holds.
+func (s *sched) block(what string, cond func() bool) {
+	if s.aborting {
+		if cond() {
+			return
+		}
+		panic(engineAbort{"thread torn down at the end of the path"})
+	}
+	me := s.cur
+	for !cond() {
+		if s.aborting {
+			panic(engineAbort{"thread torn down at the end of the path"})
+		}
+		me.blocked = cond
+		me.what = what
+		var rs []*thread
+		for _, t := range s.runnable() {
+			if t != me {
+				rs = append(rs, t)
+			}
+		}
+		if len(rs) == 0 {
+			me.blocked = nil
+			if me.id == 0 {
+				panic(engineAbort{"deadlock: all goroutines are asleep (main blocked in " + what + ")"})
+			}
+			// a non-main thread blocked forever while nothing else can run: hand back to main if it is waiting
+			panic(engineAbort{"deadlock: goroutine blocked forever in " + what})
+		}
+		c := ex.choose(len(rs))
+		s.switchTo(rs[c])
+	}
+	me.blocked = nil
+}
+
+func (s *sched) tick() {
+	if !s.aborting {
+		s.cur.vc[s.cur.id]++
+	}
+}
+
+func (s *sched) lock(fr *frame, m *mutexState) {
+	s.point(fr)
+	s.block("sync.Mutex.Lock", func() bool { return !m.locked })
+	m.locked = true
+	m.owner = s.cur
+	if m.rel != nil {
+		s.cur.vc.join(m.rel)
+	}
+	s.tick()
+}
+
+func (s *sched) unlock(fr *frame, m *mutexState) {
+	m.locked = false
+	m.rel = s.cur.vc.copy()
+	s.tick()
+	s.point(fr)
+}
+
+var atomicClocks = map[*value]vclock{}
+
+func (s *sched) atomicAccess(fr *frame, p *value, write bool) {
+	if s.aborting {
+		return
+	}
+	s.point(fr)
+	// atomic operations on one cell are totally ordered and synchronise
+	if c := atomicClocks[p]; c != nil {
+		s.cur.vc.join(c)
+	}
+	atomicClocks[p] = s.cur.vc.copy()
+	s.tick()
+}
+
+func posOf(fr *frame) string {
+	if fr == nil || fr.fn == nil {
+		return "?"
+	}
+	if ex.curInstr != nil && ex.curInstr.Pos().IsValid() {
+		p := fr.fn.Prog.Fset.Position(ex.curInstr.Pos())
+		return fmt.Sprintf("%s (%s:%d)", fr.fn.String(), p.Filename[strings.LastIndex(p.Filename, "/")+1:], p.Line)
+	}
+	return fr.fn.String()
+}
+
+// access is called for loads and stores of heap cells; for functions of the
+// watched packages it is a scheduling point and is checked for data races.
+func (s *sched) access(fr *frame, p *value, write bool) {
+	if s.aborting || !s.watched(fr.fn) {
+		return
+	}
+	s.point(fr)
+	me := s.cur
+	ci := s.cells[p]
+	if ci == nil {
+		ci = &cellInfo{wTid: -1, reads: map[int]vclock{}, rAt: map[int]string{}}
+		s.cells[p] = ci
+	}
+	at := posOf(fr)
+	if ci.wTid >= 0 && ci.wTid != me.id && !ci.wClk.leq(me.vc) {
+		kind := "read"
+		if write {
+			kind = "write"
+		}
+		ex.recordViolation("race", fmt.Sprintf("data race: %s at %s is not ordered after the write at %s", kind, at, ci.wAt), "", ex.model.vals)
+	}
+	if write {
+		for tid, rc := range ci.reads {
+			if tid != me.id && !rc.leq(me.vc) {
+				ex.recordViolation("race", fmt.Sprintf("data race: write at %s is not ordered after the read at %s", at, ci.rAt[tid]), "", ex.model.vals)
+			}
+		}
+		ci.wTid, ci.wClk, ci.wAt = me.id, me.vc.copy(), at
+		ci.reads = map[int]vclock{}
+		ci.rAt = map[int]string{}
+	} else {
+		ci.reads[me.id] = me.vc.copy()
+		ci.rAt[me.id] = at
+	}
+}
 
 func goStmt(fr *frame, instr *ssa.Go, fn value, args []value) {
-	panic(unsupported{"go statement"})
+	s := ex.threads
+	if s == nil {
+		panic(unsupported{"go statement (scheduler not enabled by the harness)"})
+	}
+	parent := s.cur
+	t := &thread{id: len(s.threads), resume: make(chan struct{}, 1), exited: make(chan struct{}), vc: parent.vc.copy(), what: "go"}
+	t.vc[t.id] = 1
+	s.threads = append(s.threads, t)
+	s.tick()
+	i := fr.i
+	go func() {
+		defer close(t.exited)
+		<-t.resume
+		if s.aborting {
+			return
+		}
+		func() {
+			defer func() {
+				if r := recover(); r != nil {
+					switch p := r.(type) {
+					case engineAbort:
+						if strings.HasPrefix(p.why, "thread torn down") {
+							return
+						}
+						s.failure = r
+					default:
+						s.failure = r
+					}
+				}
+			}()
+			root := &frame{i: i, thread: t}
+			call(i, root, instr.Pos(), fn, args)
+		}()
+		t.done = true
+		if s.aborting {
+			return
+		}
+		if s.failure != nil {
+			// abort the path: give the baton to main, which re-raises the failure
+			s.cur = s.threads[0]
+			s.threads[0].blocked = nil
+			s.threads[0].resume <- struct{}{}
+			return
+		}
+		// pick the next thread to run
+		rs := s.runnable()
+		if len(rs) == 0 {
+			// everything else is blocked: main must be among the blocked threads
+			s.failure = engineAbort{"deadlock: all goroutines are asleep"}
+			s.cur = s.threads[0]
+			s.threads[0].resume <- struct{}{}
+			return
+		}
+		c := ex.choose(len(rs))
+		s.cur = rs[c]
+		rs[c].resume <- struct{}{}
+	}()
+	s.point(fr)
 }
 
-func makeChan(n int64) value { return make(chan value, n) }
+// teardown ends all threads that are still alive at the end of a path.
+func (s *sched) teardown() {
+	s.aborting = true
+	for _, t := range s.threads[1:] {
+		if t.done {
+			<-t.exited
+			continue
+		}
+		t.done = true
+		s.cur = t // (its deferred calls run on its own goroutine, one thread at a time)
+		select {
+		case t.resume <- struct{}{}:
+		default:
+		}
+		<-t.exited
+	}
+}
+
+// ---- channels -----------------------------------------------------------------------
+
+type ichan struct {
+	buf    []value
+	clocks []vclock
+	cap    int
+	closed bool
+	cclock vclock
+	taken  int // number of values received (rendezvous for unbuffered channels)
+	sent   int
+}
+
+func makeChan(n int64) value { return &ichan{cap: int(n)} }
+
+func (c *ichan) canSend() bool {
+	if c.closed {
+		return true // will panic
+	}
+	if c.cap == 0 {
+		return len(c.buf) == 0
+	}
+	return len(c.buf) < c.cap
+}
+
+func (c *ichan) canRecv() bool { return len(c.buf) > 0 || c.closed }
+
+func asIchan(ch value) *ichan {
+	switch c := ch.(type) {
+	case *ichan:
+		return c
+	case chan value:
+		if c == nil {
+			return nil
+		}
+	}
+	panic(unsupported{fmt.Sprintf("channel of kind %T", ch)})
+}
+
+func (c *ichan) push(v value) {
+	c.buf = append(c.buf, v)
+	var vc vclock
+	if s := ex.threads; s != nil {
+		vc = s.cur.vc.copy()
+		s.tick()
+	}
+	c.clocks = append(c.clocks, vc)
+	c.sent++
+}
+
+func (c *ichan) pop(zero func() value) (value, bool) {
+	if len(c.buf) > 0 {
+		v := c.buf[0]
+		vc := c.clocks[0]
+		c.buf = c.buf[1:]
+		c.clocks = c.clocks[1:]
+		c.taken++
+		if s := ex.threads; s != nil {
+			if vc != nil {
+				s.cur.vc.join(vc)
+			}
+			s.tick()
+		}
+		return v, true
+	}
+	// closed and empty
+	if s := ex.threads; s != nil && c.cclock != nil {
+		s.cur.vc.join(c.cclock)
+		s.tick()
+	}
+	return zero(), false
+}
 
 func chanSend(fr *frame, ch value, v value) {
-	c := ch.(chan value)
-	select {
-	case c <- v:
-	default:
-		panic(unsupported{"blocking channel send without scheduler"})
+	c := asIchan(ch)
+	s := ex.threads
+	if c == nil {
+		if s == nil {
+			panic(engineAbort{"deadlock: send on nil channel"})
+		}
+		s.block("send on nil channel", func() bool { return false })
+	}
+	if s == nil {
+		if c.closed {
+			panic(targetPanic{"send on closed channel"})
+		}
+		if c.cap == 0 || len(c.buf) >= c.cap {
+			panic(unsupported{"blocking channel send without scheduler"})
+		}
+		c.push(v)
+		return
+	}
+	s.point(fr)
+	s.block("channel send", c.canSend)
+	if c.closed {
+		panic(runtimeError{"send on closed channel"})
+	}
+	c.push(v)
+	if c.cap == 0 {
+		// rendezvous: wait until a receiver has taken the value
+		n := c.sent
+		s.block("channel send (rendezvous)", func() bool { return c.taken >= n || c.closed })
 	}
 }
 
 func chanRecv(fr *frame, instr *ssa.UnOp, ch value) value {
-	c := ch.(chan value)
-	var v value
-	var ok bool
-	select {
-	case v, ok = <-c:
-	default:
-		panic(unsupported{"blocking channel receive without scheduler"})
+	c := asIchan(ch)
+	s := ex.threads
+	zero := func() value { return zero(instr.X.Type().Underlying().(*types.Chan).Elem()) }
+	if c == nil {
+		if s == nil {
+			panic(engineAbort{"deadlock: receive from nil channel"})
+		}
+		s.block("receive from nil channel", func() bool { return false })
 	}
-	if !ok {
-		v = zero(instr.X.Type().Underlying().(*types.Chan).Elem())
+	if s == nil {
+		if !c.canRecv() {
+			panic(unsupported{"blocking channel receive without scheduler"})
+		}
+	} else {
+		s.point(fr)
+		s.block("channel receive", c.canRecv)
 	}
+	v, ok := c.pop(zero)
 	if instr.CommaOk {
-		v = tuple{v, ok}
+		return tuple{v, ok}
 	}
 	return v
 }
 
-func doSelect(fr *frame, instr *ssa.Select) value {
-	panic(unsupported{"select without scheduler"})
+func chanClose(ch value) {
+	c := asIchan(ch)
+	if c == nil {
+		panic(runtimeError{"close of nil channel"})
+	}
+	if c.closed {
+		panic(runtimeError{"close of closed channel"})
+	}
+	c.closed = true
+	if s := ex.threads; s != nil {
+		c.cclock = s.cur.vc.copy()
+		s.tick()
+	}
 }
 
-type vclock map[int]int
+func doSelect(fr *frame, instr *ssa.Select) value {
+	s := ex.threads
+	type sc struct {
+		c    *ichan
+		send bool
+		v    value
+		elem types.Type
+	}
+	var cases []sc
+	for _, st := range instr.States {
+		c := asIchan(fr.get(st.Chan))
+		x := sc{c: c, send: st.Dir == types.SendOnly, elem: st.Chan.Type().Underlying().(*types.Chan).Elem()}
+		if st.Send != nil {
+			x.v = fr.get(st.Send)
+		}
+		cases = append(cases, x)
+	}
+	ready := func() []int {
+		var r []int
+		for i, x := range cases {
+			if x.c == nil {
+				continue
+			}
+			if x.send && x.c.canSend() || !x.send && x.c.canRecv() {
+				r = append(r, i)
+			}
+		}
+		return r
+	}
+	if s != nil {
+		s.point(fr)
+	}
+	r := ready()
+	if len(r) == 0 {
+		if !instr.Blocking {
+			res := tuple{-1, false}
+			for _, x := range cases {
+				if !x.send {
+					res = append(res, zero(x.elem))
+				}
+			}
+			return res
+		}
+		if s == nil {
+			panic(unsupported{"blocking select without scheduler"})
+		}
+		s.block("select", func() bool { return len(ready()) > 0 })
+		r = ready()
+	}
+	chosen := r[0]
+	if len(r) > 1 {
+		chosen = r[ex.choose(len(r))]
+	}
+	x := cases[chosen]
+	var recv value
+	recvOk := false
+	if x.send {
+		if x.c.closed {
+			panic(runtimeError{"send on closed channel"})
+		}
+		x.c.push(x.v)
+	} else {
+		recv, recvOk = x.c.pop(func() value { return zero(x.elem) })
+	}
+	res := tuple{chosen, recvOk}
+	for i, y := range cases {
+		if !y.send {
+			if i == chosen {
+				res = append(res, recv)
+			} else {
+				res = append(res, zero(y.elem))
+			}
+		}
+	}
+	return res
+}
 
-func (s *sched) lock(fr *frame, m *mutexState)                { m.locked = true }
-func (s *sched) unlock(fr *frame, m *mutexState)              { m.locked = false }
-func (s *sched) yield(fr *frame)                              {}
-func (s *sched) atomicAccess(fr *frame, p *value, write bool) {}
+var _ = token.NoPos
